@@ -430,7 +430,7 @@ class ManagedStream(ManagedDownloadSource):
         if end >= size:
             raise HTTPRequestRangeNotSatisfiable()
 
-        skip_blobs = start // (MAX_BLOB_SIZE - 2)  # -2 because ... dont remember
+        skip_blobs = start // (MAX_BLOB_SIZE - 1)  # a full blob carries MAX_BLOB_SIZE - 1 bytes of the file
         skip = skip_blobs * (MAX_BLOB_SIZE - 1)  # -1 because
         skip_first_blob = start - skip
         start = skip_first_blob + skip
